@@ -117,9 +117,12 @@ def find_shared(cls_node: ast.ClassDef) -> list:
                     rebound.add(t.attr)
                 if isinstance(t, ast.Subscript) and isinstance(t.value, ast.Attribute) and t.value.attr in defaults and isinstance(t.value.value, ast.Name):
                     mutated.setdefault(t.value.attr, n)
-        if isinstance(n, ast.Call) and isinstance(n.func, ast.Attribute) and n.func.attr in MUTATORS and isinstance(n.func.value, ast.Attribute) \
-                and n.func.value.attr in defaults and isinstance(n.func.value.value, ast.Name):
-            mutated.setdefault(n.func.value.attr, n)
+        if isinstance(n, ast.Call) and isinstance(n.func, ast.Attribute) and n.func.attr in MUTATORS:
+            recv = n.func.value
+            while isinstance(recv, ast.Subscript):
+                recv = recv.value  # x.branches[idx].append(v) fills the table held in x.branches
+            if isinstance(recv, ast.Attribute) and recv.attr in defaults and isinstance(recv.value, ast.Name):
+                mutated.setdefault(recv.attr, n)
     return [(defaults[a], a, node) for a, node in mutated.items() if a not in rebound]
 
 
@@ -206,3 +209,40 @@ def run_atol(ctx, col, modules, rule="R-ATOL", dimensionless=("t", "t1", "t2", "
                     f"(or a short segment: the quantity is a squared length) is declared degenerate and takes the wrong branch, so volumes do not scale with s^3", stmt=f"atol:{what[:30]}", definite=True)
     fixtures_ok(col, rule)
     return hits
+
+
+def own_container_on_every_path(ctx, col, rule, class_qual: str, attr: str, what: str):
+    """A class-level mutable default (`comments: list[str] = []`) is harmless only while every constructed object binds a container of its own:
+    in the class's __init__ every path to a normal return passes `self.<attr> = <fresh container>` (CFG must-pass)."""
+    from .. import cfg as cfgmod
+    c = ctx.repo.get_class(class_qual)
+    init = c.methods.get("__init__")
+    if init is None:
+        col.unresolved(rule, class_qual, "", what, "no __init__", stmt=f"own:{attr}")
+        return
+    g = cfgmod.CFG(init.node.body, "__init__")
+
+    def binds(n):
+        a = n.ast
+        if isinstance(a, (ast.Assign, ast.AnnAssign)):
+            tg = a.targets if isinstance(a, ast.Assign) else [a.target]
+            for t in tg:
+                if isinstance(t, ast.Attribute) and t.attr == attr and isinstance(t.value, ast.Name) and t.value.id == "self":
+                    v = a.value
+                    if v is None:
+                        return False
+                    # a fresh container on both arms of a conditional expression, a list(...) / [...] / [] ...
+                    def fresh(e):
+                        if isinstance(e, ast.IfExp):
+                            return fresh(e.body) and fresh(e.orelse)
+                        if isinstance(e, (ast.List, ast.Dict, ast.Set, ast.ListComp, ast.DictComp)):
+                            return True
+                        if isinstance(e, ast.Call) and isinstance(e.func, ast.Name) and e.func.id in ("list", "dict", "set", "sorted"):
+                            return True
+                        return False
+                    return fresh(v)
+        return False
+    ok = g.must_pass(g.entry, [g.exit], binds)
+    col.check(ok, rule, init.qualname, init.loc(), what, f"every path through {class_qual.rsplit('.', 1)[-1]}.__init__ binds a fresh `self.{attr}`",
+              f"some path through `{class_qual.rsplit('.', 1)[-1]}.__init__` reaches its end without binding a fresh container to `self.{attr}`: such objects fall back to the class-level "
+              f"`{attr}` default, ONE list shared by every tree built that way -- an edit of the comments of one result shows up in its input and in unrelated trees", stmt=f"own:{attr}", definite=True)
